@@ -8,8 +8,9 @@
     chunk datas (the head possibly partly delivered); the remaining payload is [concat ds].  Every
     window offered to the decoder is [take k (R ++ rest)]: the first k bytes (any k: any arrival cut)
     of the remaining coding followed by arbitrary bytes [rest] of a next message. *)
-From Hoot Require Import Base Chunk Body Call.
-From Hoot.proofs Require Import BytesLemmas C07_spec C07_sizeline C07_sim C07_proofs C07_call.
+From Hoot Require Import Base Chunk Body Parser Url Request Call Flow Script.
+From Hoot.proofs Require Import BytesLemmas C07_spec C07_sizeline C07_sim C07_proofs C07_call
+     C08_flowrun C07_more C07_f17.
 Open Scope N_scope.
 
 (** The one fact about arrival cuts everything rests on: on any window of  line CRLF more  with a
@@ -210,6 +211,222 @@ Proof.
   intros stream stop sched. destruct stop; vm_compute; eexists; repeat split.
 Qed.
 
+(* ====================================================================================== *)
+(** * Strengthening after review 2
+
+    ** 1. The schedule theorem at the observation points
+
+    [frun] (proofs/C08_flowrun.v): each schedule item (k, cap, stop) sets stop-on-chunk-boundary to
+    [stop] through the flow and then calls [Flow<RecvBody>::read] with the first [k] unconsumed bytes
+    of the stream and [cap] bytes of output space; a failing read fails the run.  [call_run]
+    (proofs/C07_more.v) is the same through [Call<RecvBody>::read] alone, the stop flag being the one
+    stored in the call.  Both include the short-circuit for an ended reader. *)
+
+(** Any schedule through the flow over a valid coding followed by arbitrary bytes: no read fails;
+    the flow never consumes beyond the coding; the output is a prefix of the payload; [can_proceed] is
+    true exactly when the whole coding, final CRLF included, has been consumed, and then the output
+    is exactly the payload; reads issued after that (the schedule is arbitrary) change nothing;
+    nothing else in the flow (holder, close reasons, status, location) changes. *)
+Theorem c07_run_flow : forall c rest sched f,
+  valid c -> line_limit_F17 c ->
+  i_holder f = HRecvBody -> c_reader (i_call f) = Some (RChunked DSize) ->
+  exists t st,
+    frun (enc c ++ rest) (fstart f) sched = Ok t /\
+    i_holder (ft_flow t) = HRecvBody /\ c_reader (i_call (ft_flow t)) = Some (RChunked st) /\
+    st <> DTrailer /\
+    ft_consumed t <= len (enc c) /\
+    (exists P', payload c = ft_out t ++ P') /\
+    recv_body_can_proceed (ft_flow t) = Ok (ft_consumed t =? len (enc c)) /\
+    (recv_body_can_proceed (ft_flow t) = Ok true <-> ft_consumed t = len (enc c)) /\
+    (ft_consumed t = len (enc c) -> ft_out t = payload c) /\
+    same_shell f (ft_flow t).
+Proof. exact run_flow. Qed.
+
+(** The same through [Call<RecvBody>::read], with [reader_is_ended] as the completion test. *)
+Theorem c07_run_call : forall c0 c rest sched,
+  valid c -> line_limit_F17 c -> c_reader c0 = Some (RChunked DSize) ->
+  exists c' consumed out st,
+    call_run (enc c ++ rest) c0 0 [] sched = Ok (c', consumed, out) /\
+    c_reader c' = Some (RChunked st) /\ st <> DTrailer /\ c_stop c' = c_stop c0 /\
+    consumed <= len (enc c) /\ (exists P', payload c = out ++ P') /\
+    (reader_is_ended (RChunked st) = true <-> consumed = len (enc c)) /\
+    (consumed = len (enc c) -> out = payload c).
+Proof. exact run_call. Qed.
+
+(** A decoder-level run that succeeds is reproduced by the flow, read by read (this is how the two
+    theorems above, and the boundary theorems, transfer). *)
+Theorem c07_flow_simulates : forall stream sched f st consumed out ct,
+  i_holder f = HRecvBody -> c_reader (i_call f) = Some (RChunked st) ->
+  crun stream {| t_st := st; t_consumed := consumed; t_out := out |} sched = Ok ct ->
+  exists t,
+    frun stream {| ft_flow := f; ft_consumed := consumed; ft_out := out |} sched = Ok t /\
+    i_holder (ft_flow t) = HRecvBody /\ c_reader (i_call (ft_flow t)) = Some (RChunked (t_st ct)) /\
+    ft_consumed t = t_consumed ct /\ ft_out t = t_out ct /\ same_shell f (ft_flow t).
+Proof. exact frun_of_crun. Qed.
+
+(** ** 2. Finding F17: a size line longer than SANITY_CHECK is rejected when visible, and only then *)
+
+(** The parser of size lines, on ANY CR-free line longer than the limit (valid or not), once the line
+    and its CRLF are in the window. *)
+Theorem c07_long_line_rejected : forall line k more,
+  cr_free line -> SANITY_CHECK < len line -> len line + 2 <= k ->
+  read_size (take k (line ++ CRLF ++ more)) = Err ChunkExpectedCrLf.
+Proof. exact long_line_read_size. Qed.
+
+(** A whole [read_chunked] call in state Size in front of such a line: fails iff the line is visible,
+    otherwise waits without consuming. *)
+Theorem c07_long_line_read : forall line k more cap stop,
+  cr_free line -> SANITY_CHECK < len line ->
+  read_chunked DSize (take k (line ++ CRLF ++ more)) cap stop =
+    if len line + 2 <=? k then Err ChunkExpectedCrLf else Ok (DSize, 0, []).
+Proof. exact long_line_read_chunked. Qed.
+
+(** At the flow. *)
+Theorem c07_long_line_flow : forall stream t line more k cap stop,
+  i_holder (ft_flow t) = HRecvBody -> c_reader (i_call (ft_flow t)) = Some (RChunked DSize) ->
+  drop (ft_consumed t) stream = line ++ CRLF ++ more ->
+  cr_free line -> SANITY_CHECK < len line ->
+  (len line + 2 <= k -> fstep stream t (k, cap, stop) = Err ChunkExpectedCrLf) /\
+  (k < len line + 2 ->
+   exists f', fstep stream t (k, cap, stop) = Ok {| ft_flow := f'; ft_consumed := ft_consumed t; ft_out := ft_out t |} /\
+              c_reader (i_call f') = Some (RChunked DSize) /\ i_holder f' = HRecvBody).
+Proof. exact long_line_flow. Qed.
+
+(** EXACTNESS of the class of F17 (the dual of [c07_run] / [c07_reaches_end]).  For EVERY valid coding
+    outside the line limit, followed by anything:
+    - safety, any schedule: either all reads succeed -- then strictly less than the coding has been
+      consumed, a prefix of the payload delivered, the body not reported ended -- or the run fails, and
+      the only possible failure is ChunkExpectedCrLf (never a panic, never another error);
+    - rejection: when every read sees the whole coding and has room for a byte, [len (enc c)] reads
+      always fail.
+    So no member of the class is ever decoded to its end, and every member is refused once visible.
+    (Proof: the simulation redone for streams that run into a long line, proofs/C07_f17.v.) *)
+Theorem c07_f17_class : forall c rest,
+  valid c -> ~ line_limit_F17 c ->
+  (forall sched,
+     (exists t, crun (enc c ++ rest) cstart sched = Ok t /\
+                t_consumed t < len (enc c) /\ (exists P', payload c = t_out t ++ P') /\
+                dech_is_ended (t_st t) = false /\ t_st t <> DTrailer) \/
+     crun (enc c ++ rest) cstart sched = Err ChunkExpectedCrLf) /\
+  (forall sched, Forall (all_visible c) sched -> len (enc c) <= len sched ->
+                 crun (enc c ++ rest) cstart sched = Err ChunkExpectedCrLf).
+Proof. exact f17_class. Qed.
+
+(** Where it stops: [cs1] = the chunks in front of the first long size line [line]; no run consumes
+    more than their encoding (nothing of the long line) or delivers more than their data. *)
+Theorem c07_f17_class_precise : forall c,
+  valid c -> ~ line_limit_F17 c ->
+  exists cs1 cs2 line more,
+    cd_chunks c = cs1 ++ cs2 /\
+    enc c = concat (map enc_chunk cs1) ++ line ++ CRLF ++ more /\
+    Forall within_limit cs1 /\ cr_free line /\ SANITY_CHECK < len line /\
+    forall rest sched,
+      (exists t, crun (enc c ++ rest) cstart sched = Ok t /\
+                 t_consumed t <= len (concat (map enc_chunk cs1)) /\
+                 (exists P', concat (map ck_data cs1) = t_out t ++ P') /\
+                 dech_is_ended (t_st t) = false) \/
+      crun (enc c ++ rest) cstart sched = Err ChunkExpectedCrLf.
+Proof. exact f17_class_precise. Qed.
+
+(** The class at the flow: [can_proceed] is never true, and the flow's reads fail as the decoder's. *)
+Theorem c07_f17_class_flow : forall c rest f,
+  valid c -> ~ line_limit_F17 c ->
+  i_holder f = HRecvBody -> c_reader (i_call f) = Some (RChunked DSize) ->
+  (forall sched,
+     (exists t, frun (enc c ++ rest) (fstart f) sched = Ok t /\
+                ft_consumed t < len (enc c) /\ (exists P', payload c = ft_out t ++ P') /\
+                recv_body_can_proceed (ft_flow t) = Ok false) \/
+     frun (enc c ++ rest) (fstart f) sched = Err ChunkExpectedCrLf) /\
+  (forall sched, Forall (all_visible c) sched -> len (enc c) <= len sched ->
+                 frun (enc c ++ rest) (fstart f) sched = Err ChunkExpectedCrLf).
+Proof. exact f17_class_flow. Qed.
+
+(** A member with a well-formed chunk in front of the long line: "3" CRLF "abc" CRLF, then the
+    33-byte line.  One read (everything visible, 2 bytes of room) succeeds; a second one fails; with
+    windows of 10 bytes the line is never visible and the decoder waits in front of it for ever,
+    having delivered "abc". *)
+Definition f17_coding2 : coding :=
+  {| cd_chunks := [ {| ck_line := s2b "3"; ck_data := s2b "abc" |};
+                    {| ck_line := s2b "5;name=abcdefghijklmnopqrstuvwxyz"; ck_data := s2b "hello" |} ];
+     cd_last := s2b "0"; cd_trailers := [] |}.
+
+Example c07_f17_class_nonvacuous :
+  valid f17_coding2 /\ ~ line_limit_F17 f17_coding2 /\
+  let stream := enc f17_coding2 ++ demo_next in
+  (exists t, crun stream cstart [(100, 2, false)] = Ok t /\ t_consumed t = 5 /\ t_out t = s2b "ab") /\
+  crun stream cstart [(100, 2, false); (100, 2, false)] = Err ChunkExpectedCrLf /\
+  crun stream cstart (repeat (100, 100, true) 50) = Err ChunkExpectedCrLf /\
+  (exists t, crun stream cstart (repeat (10, 10, false) 30) = Ok t /\
+             t_consumed t = 8 /\ t_out t = s2b "abc" /\ t_st t = DSize).
+Proof.
+  split; [|split].
+  - unfold valid, f17_coding2; cbn [cd_chunks cd_last cd_trailers]. split; [|split; [|split]].
+    + constructor; [|constructor; [|constructor]]; unfold valid_chunk; cbn [ck_line ck_data].
+      * split; [apply cr_free_b; reflexivity|]. split; [|vm_compute; reflexivity].
+        size_line_tac (s2b "3") (@nil N) (@nil N).
+      * split; [apply cr_free_b; reflexivity|]. split; [|vm_compute; reflexivity].
+        size_line_tac (s2b "5") (@nil N) (s2b ";name=abcdefghijklmnopqrstuvwxyz").
+    + apply cr_free_b; reflexivity.
+    + size_line_tac (s2b "0") (@nil N) (@nil N).
+    + constructor.
+  - intros [H _]. inversion H as [|? ? _ H2]; subst. inversion H2 as [|? ? Hlen _]; subst.
+    vm_compute in Hlen. apply Hlen. reflexivity.
+  - cbv zeta. split; [eexists; split; [vm_compute; reflexivity|split; vm_compute; reflexivity]|].
+    split; [vm_compute; reflexivity|]. split; [vm_compute; reflexivity|].
+    eexists. split; [vm_compute; reflexivity|]. repeat split; vm_compute; reflexivity.
+Qed.
+
+(** ** Non-vacuity on a flow produced by RUNNING the model: GET http://a.test/x, head written, a
+    response head with "Transfer-Encoding: chunked" parsed, body state entered. *)
+
+Definition ex_uri : uri := {| u_scheme := s2b "http"; u_auth := s2b "a.test"; u_pq := s2b "/x" |}.
+Definition ex_get : request := {| rq_method := GET; rq_version := V11; rq_uri := ex_uri; rq_headers := [] |}.
+Definition resp_chunked : bytes :=
+  s2b "HTTP/1.1 200 OK" ++ CRLF ++ s2b "Transfer-Encoding: gzip, Chunked" ++ CRLF ++ CRLF.
+Definition to_chunked_body : list op :=
+  [ONew ex_get; OProceed; OWriteHead 1000; OProceed; OSetStream resp_chunked; OArrive 1000; OTryResponse; OProceed].
+Definition flow_at (ops : list op) : option (tag * inner) :=
+  match s_obj (run_ops s_init ops) with ObFlow t f => Some (t, f) | _ => None end.
+
+(** [demo] followed by the start of a next response, windows of 12 bytes, 3 bytes of output space,
+    boundary stop on: after 5 reads the flow may not proceed, after 60 it may, exactly the coding has
+    been consumed and exactly the payload delivered; 40 further reads change nothing. *)
+Example c07_run_flow_nonvacuous :
+  exists f, flow_at to_chunked_body = Some (TRecvBody, f) /\
+    i_holder f = HRecvBody /\ c_reader (i_call f) = Some (RChunked DSize) /\
+    (exists t, frun (enc demo ++ demo_next) (fstart f) (repeat (12, 3, true) 5) = Ok t /\
+               recv_body_can_proceed (ft_flow t) = Ok false /\ ft_consumed t <> len (enc demo)) /\
+    (exists t, frun (enc demo ++ demo_next) (fstart f) (repeat (12, 3, true) 60) = Ok t /\
+               recv_body_can_proceed (ft_flow t) = Ok true /\
+               ft_consumed t = len (enc demo) /\ ft_out t = payload demo) /\
+    (exists t, frun (enc demo ++ demo_next) (fstart f) (repeat (12, 3, true) 60 ++ repeat (100, 100, false) 40) = Ok t /\
+               ft_consumed t = len (enc demo) /\ ft_out t = payload demo).
+Proof.
+  eexists. split; [vm_compute; reflexivity|]. split; [vm_compute; reflexivity|]. split; [vm_compute; reflexivity|].
+  split; [|split].
+  - eexists. split; [vm_compute; reflexivity|]. split; [vm_compute; reflexivity|]. vm_compute. discriminate.
+  - eexists. split; [vm_compute; reflexivity|]. repeat split; vm_compute; reflexivity.
+  - eexists. split; [vm_compute; reflexivity|]. split; vm_compute; reflexivity.
+Qed.
+
+(** The 33-byte size line of [f17_coding] on the same flow: with 34 bytes visible the read waits, with
+    35 (the line and its CRLF) it fails. *)
+Example c07_long_line_nonvacuous :
+  exists f, flow_at to_chunked_body = Some (TRecvBody, f) /\
+    let line := s2b "5;name=abcdefghijklmnopqrstuvwxyz" in
+    let stream := enc f17_coding ++ demo_next in
+    cr_free line /\ SANITY_CHECK < len line /\
+    (exists more, drop (ft_consumed (fstart f)) stream = line ++ CRLF ++ more) /\
+    fstep stream (fstart f) (35, 100, false) = Err ChunkExpectedCrLf /\
+    exists f', fstep stream (fstart f) (34, 100, false) = Ok {| ft_flow := f'; ft_consumed := 0; ft_out := [] |}.
+Proof.
+  eexists. split; [vm_compute; reflexivity|]. cbv zeta.
+  split; [apply cr_free_b; reflexivity|]. split; [vm_compute; reflexivity|].
+  split; [exists (drop 35 (enc f17_coding ++ demo_next)); vm_compute; reflexivity|].
+  split; [vm_compute; reflexivity|].
+  eexists. vm_compute. reflexivity.
+Qed.
+
 Print Assumptions c07_find_crlf_window.
 Print Assumptions c07_size_line.
 Print Assumptions c07_start.
@@ -226,3 +443,15 @@ Print Assumptions c07_reaches_end.
 Print Assumptions c07_known_refuted.
 Print Assumptions demo_valid.
 Print Assumptions c07_nonvacuous.
+Print Assumptions c07_run_flow.
+Print Assumptions c07_run_call.
+Print Assumptions c07_flow_simulates.
+Print Assumptions c07_long_line_rejected.
+Print Assumptions c07_long_line_read.
+Print Assumptions c07_long_line_flow.
+Print Assumptions c07_run_flow_nonvacuous.
+Print Assumptions c07_long_line_nonvacuous.
+Print Assumptions c07_f17_class.
+Print Assumptions c07_f17_class_precise.
+Print Assumptions c07_f17_class_flow.
+Print Assumptions c07_f17_class_nonvacuous.
